@@ -1,5 +1,7 @@
 import Vet.Props.Build
+import Vet.Props.C15
 #print axioms Vet.C06_wildcard_edge_iff
 #print axioms Vet.C06_trusted_edge_iff
 #print axioms Vet.C06_other_crates_irrelevant
 #print axioms Vet.build_sound
+#print axioms Vet.C06_cap
